@@ -133,7 +133,7 @@ def run(ctx):
             if not seen:
                 bad.append("does not call model_version_probe")
                 break
-            if any(a != PTR(("G", m.spec_name)) for a in seen):
+            if any(a != PTR(("G", m.file, m.spec_name)) for a in seen):
                 bad.append("probes with %s instead of its own spec %s" % (seen[0], m.spec_name))
             vals = {o.ret[1] if o.ret and o.ret[0] == "int" else None for o in rets}
             if None in vals:
